@@ -266,3 +266,11 @@ package p2pke
 //@   modifies all(c), all(out)
 //@   requires c != nil
 //@   ensures true
+
+// ---- timers: the callback runs with the timer already marked not pending, so that a Reset issued
+// from inside it (handshake retransmission re-arming itself, onRekey) is not undone afterwards
+//@ func newTimer$1
+//@   noframe
+//@   requires t != nil
+//@   before call fn:
+//@     assert [rearmable] !t.isPending
